@@ -275,8 +275,9 @@ def gen(shard, rng, tier):
                     c["profile"] = "dev"
                     yield c
     elif name == "counts":
-        for n in range(0, 41):
-            for _ in range(shard["reps"]):
+        # word counts 0..40, and counts that are legal modulo 2^8 / 2^16 (a count narrowed before it is checked)
+        for n in list(range(0, 41)) + [256 + 12, 256 + 24, 512 + 15, 65536 + 12, 65536 + 24]:
+            for _ in range(shard["reps"] if n <= 40 else 1):
                 words = rand_words(rng, n)
                 if n in bip39.LEGAL_COUNTS and rng.random() < 0.5:
                     words = words[:-1] + [complete_last(rng, words[:-1])]
